@@ -465,11 +465,19 @@ structure TaskPaths where
   unlinked : List Path        -- files removed before the task starts
   deriving DecidableEq, Repr
 
-/-- `setup_task_paths` for one output (after the repair of F29: an output that resolves to an
-    input is refused before anything is unlinked); `ex` = which paths exist -/
+/-- `setup_task_paths` for one output (after the repairs of F29 and F64: an output *or its
+    temporary path* that resolves to an input is refused before anything is unlinked);
+    `ex` = which paths exist -/
 def setupPaths (ins : List Path) (out : Path) (ex : Path → Bool) : Option TaskPaths :=
   let o := correctedOut out
-  if ins.contains o then none                                  -- `ValueError`
+  if ins.contains o || ins.contains (tempOf o) then none       -- `ValueError`
+  else some { out := o, temp := tempOf o,
+              unlinked := (if ex o then [o] else []) ++ (if ex (tempOf o) then [tempOf o] else []) }
+
+/-- after F29 but before F64: only the output path is compared with the inputs -/
+def setupPathsF29 (ins : List Path) (out : Path) (ex : Path → Bool) : Option TaskPaths :=
+  let o := correctedOut out
+  if ins.contains o then none
   else some { out := o, temp := tempOf o,
               unlinked := (if ex o then [o] else []) ++ (if ex (tempOf o) then [tempOf o] else []) }
 
